@@ -370,6 +370,10 @@ def check_C19(ctx):
             k, nb = oracle_lines(ctx, o, extra, spath, "vec")
             ctx.cov["search_cases"] = len(extra)
     ctx.cov["known_signature_hits"] = known_hits
+    if known_hits and any(f.get("id") == "C19-D12-l1_norm-without-abs" for f in fw.known_findings("C19")):
+        ctx.known.append("VectorT::l1_norm() returns the plain sum of the components, not the sum of absolute values (D12; e.g. Vec3d(-1,2,0).l1_norm() == 1)")
+    if any(f.get("id") == "C19-normals-nonconvex" for f in fw.known_findings("C19")) and not ctx.broken:
+        ctx.known.append("halfface normals of the two sides of a planar NON-CONVEX face are not opposite (first-corner normal; witness proved in C19_normals_opposite_planar_only_refuted and reproduced by the dart shape of the generator)")
     if known_hits:
         ctx.notes.append("KNOWN_SIGNATURES[C19-D12-l1_norm-without-abs] reproduced on %d generated vectors with a negative component "
                          "(l1_norm() returns the plain sum; Coq: C19_l1_norm_refuted / C19_l1_norm_partial); not counted, reported to the integrator" % known_hits)
